@@ -408,6 +408,22 @@ def rule_slot(S):
          'get_empty_slot can return an index without its mark having been tested clear', loc=g.loc)
 
 
+def rule_rd1(S):
+    """Reader side of 'each update is published as a single atomic word so a reader sees either the old or the new
+    ordering': the lock-free readers consume the word through one local snapshot (shared with C01 / C04 / C10)."""
+    from checks.C01 import snap_rule
+    facts = S.facts()
+    S.rule('R-RD1', 'lock-free readers (border_node::get_lv_of, scan_border<V>, iscan_findnext): the only live read of the '
+                    'permutation word is the whole-word load that initialises a local snapshot; every rank / count lookup '
+                    'goes through that snapshot; node accessors that read part of the live word are not used')
+    fns = [facts.one(Y + 'border_node::get_lv_of')]
+    fns += [f for f in facts.by_qname(Y + 'scan_border') if not f.is_lambda]
+    fns += [facts.one(Y + 'iscan_findnext')]
+    for f in fns:
+        snap_rule(S, f, 'R-RD1')
+    S.require('R-RD1', 'lock-free readers of the permutation word', len(fns), 3)
+
+
 def run(S):
     S.undecided = ['that insert_rank shifts exactly the later ranks, delete_rank closes the gap, split_dest is the '
                    'identity, distinctness of the n slot numbers: bit-precise arithmetic facts that need a solver or '
@@ -418,3 +434,4 @@ def run(S):
     rule_pub1(S)
     rule_shift(S)
     rule_slot(S)
+    rule_rd1(S)
